@@ -54,6 +54,7 @@ def _limited_growth2(x, a=0.08, b=1):
 
 SHAPES = {
     "linear": (_linear, (1.0, 0.5), True),
+    "linear_neg": (_linear, (-0.6, 0.5), True),
     "quadratic": (_quadratic, (1.0, 0.5, 0.1), True),
     "power3": (_power3, (0.5, 1.2, 0.8), False),
     "exp3": (_exp3, (0.3, 1.5, 0.2), False),
@@ -87,6 +88,12 @@ def make_bounds(kind, shape):
         return [(th[0] + 0.3 * max(abs(th[0]), 0.1), None)] + [(None, None)] * (k - 1)
     if kind == "upper_active":
         return [(None, th[0] - 0.3 * max(abs(th[0]), 0.1))] + [(None, None)] * (k - 1)
+    if kind == "zero_lower":     # a bound of exactly 0 (falsy in python), active when the unconstrained optimum is negative
+        return [(0, None)] + [(None, None)] * (k - 1)
+    if kind == "zero_upper":     # active when the unconstrained optimum is positive
+        return [(None, 0)] + [(None, None)] * (k - 1)
+    if kind == "zero_both_inactive":
+        return [(None, None)] * (k - 1) + [((0, None) if th[-1] > 0 else (None, 0))]
     if kind == "mixed":
         b = [(None, None)] * k
         b[0] = (th[0] - 50, None)
@@ -138,6 +145,8 @@ def run_single(case):
     cons_list = [] if cons is None else ([cons] if isinstance(cons, dict) else list(cons))
     wfun = WEIGHTS[wk]
     viol = []
+    if wfun is not None and np.any(np.asarray(wfun(x, y), dtype=float) <= 0):
+        return {"viol": [], "n": 0, "nontrivial": 0, "count": {"skipped_non_positive_weights": 1}}
 
     def bad(clause, detail):
         sig = {"check": "depfit", "clause": clause, "weighted": wk != "none", "constrained": ck != "none"}
@@ -218,13 +227,13 @@ def run_single(case):
             # mechanism-discriminating field for the known finding: SLSQP stops on an ABSOLUTE objective change
             viol[-1]["sig"]["abs_gain_below_1e-4"] = bool(R - found[0] < 1e-4)
     # linear shapes with inactive bounds and no constraints: the unique linear least squares solution
-    if linear and bk in ("none", "allnone", "inactive") and ck in ("none", "dict_inactive"):
+    if linear and bk in ("none", "allnone", "inactive", "zero_both_inactive") and ck in ("none", "dict_inactive"):
         A = np.vstack([x ** i for i in range(k)]).T
         sw = np.ones_like(x) if w is None else np.sqrt(w)
         sol, *_ = np.linalg.lstsq(A * sw[:, None], y * sw, rcond=None)
         if not np.allclose(p, sol, rtol=(1e-3 if ck != "none" else 1e-5), atol=(1e-4 if ck != "none" else 1e-7)):
             bad("not_linear_lsq_solution", {"params": p, "lstsq": sol})
-    active = bk in ("lower_active", "upper_active", "mixed") or ck in ("dict_active", "list_two")
+    active = bk in ("lower_active", "upper_active", "mixed", "zero_lower", "zero_upper") or ck in ("dict_active", "list_two")
     return {"viol": viol[:2], "n": 1, "nontrivial": 1, "outcomes": [f"{shape}:{len(viol)}"],
             "count": {"active_bound_or_constraint": int(active)}}
 
@@ -470,7 +479,7 @@ def run_case(case):
 
 def main(ctx):
     ctx.rule = ("A1: complete product shape (8) x support points {3,5,10,20} x bounds {None, all None, finite inactive, lower "
-                "active, upper active, mixed} x weights {None, y, 1/x} x constraints {None, dict inactive, dict active, list of "
+                "active, upper active, mixed, 0 as lower / upper / inactive bound} x weights {None, y, 1/x} x constraints {None, dict inactive, dict active, list of "
                 "two} x start {signature/default 1, near}. A2: explicit-state BFS over ALL sequences of fit(f, data version) "
                 "events on the real DependenceFunction objects for four (thorough: six, with three data versions) dependency graphs until no new canonical state "
                 "appears; plus ConditionalDistribution.fit for all 6 permutations of the parameters dict x all fit/re-fit "
@@ -487,7 +496,8 @@ def main(ctx):
         for n in ns:
             if n < len(SHAPES[shape][1]):
                 continue
-            for bk in ("none", "allnone", "inactive", "lower_active", "upper_active", "mixed"):
+            for bk in ("none", "allnone", "inactive", "lower_active", "upper_active", "mixed", "zero_lower", "zero_upper",
+                       "zero_both_inactive"):
                 for wk in WEIGHTS:
                     for ck in ("none", "dict_inactive", "dict_active", "list_two"):
                         for start in ("default", "near"):
